@@ -102,7 +102,10 @@ type model struct {
 	internal  []string
 	counts    map[string]int64
 	strict    bool
-	overflow  bool // state explosion: the model gives no verdict
+	// strict model only: arrivals (by id) that were in flight while the syncer handled the response
+	// rejecting their sender; when set, exactly these may be kept although the sender is rejected
+	raceOK   map[int]bool
+	overflow bool // state explosion: the model gives no verdict
 }
 
 func (m *model) prepass() {
@@ -186,7 +189,7 @@ func (m *model) arrive(s *mstate, a *arrival) []*mstate {
 	filled := base.clone()
 	filled.slot[a.i] = a.id
 	if s.rej&(1<<uint(a.peer)) != 0 {
-		if m.strict {
+		if m.strict && !m.raceOK[a.id] {
 			return []*mstate{base}
 		}
 		return []*mstate{base, filled}
